@@ -115,7 +115,7 @@ def trace_line(call, R):
         return None, f"ranks disagree on (n, arch_age, sync): {sorted(base)}"
     n, arch, sync = next(iter(base))
     ages = " ".join(str(hdr[r][3]) for r in range(R))
-    return f"partrace ; {R} {sync} {arch + n} {arch} ; {ages} ; " + " ; ".join(call["events"]), None
+    return f"partrace ; {R} {sync} {n} ; {ages} ; " + " ; ".join(call["events"]), None
 
 
 def parse_final_ages(out):
